@@ -3,7 +3,7 @@ use crate::rng::Rng;
 use crate::universe::*;
 
 #[derive(Clone, Copy, PartialEq, Eq, Debug)]
-pub enum Kind { General, Soft, ConflictFree, Hints, Tight }
+pub enum Kind { General, Soft, ConflictFree, Hints, Tight, Lazy }
 
 pub struct Generated { pub u: Universe, pub p: Problem }
 
@@ -22,6 +22,9 @@ fn subset(rng: &mut Rng, xs: &[u32], style: u64) -> Vec<u32> {
 pub fn generate(rng: &mut Rng, kind: Kind) -> Generated {
     // the soft family alternates between general and tight (conflict-heavy) universes
     let soft = kind == Kind::Soft;
+    // the lazy family: no availability hints at all, more locks and constrains (C09's setting)
+    let lazy = kind == Kind::Lazy;
+    let kind = if lazy { if rng.chance(1, 2) { Kind::General } else { Kind::Tight } } else { kind };
     let kind = if soft && rng.chance(1, 2) { Kind::Tight } else { kind };
     let n_names = match kind { Kind::Tight => rng.range(3, 6), _ => rng.range(1, 8) } as u32;
     let sparse = rng.chance(1, 6);
@@ -92,7 +95,7 @@ pub fn generate(rng: &mut Rng, kind: Kind) -> Generated {
             let deps = if kind != Kind::ConflictFree && rng.chance(1, 25) { Deps::Unknown(rng.below(3) as u32) } else {
                 let n_reqs = if kind == Kind::Tight { rng.range(1, 3) } else { *rng.pick(&[0u64, 0, 1, 1, 1, 2, 2, 3]) };
                 let reqs: Vec<Req> = (0..n_reqs).map(|_| pick_req(rng, n, &u)).collect();
-                let n_cons = if rng.chance(1, 4) { rng.range(1, 2) } else { 0 };
+                let n_cons = if rng.chance(1, if lazy { 2 } else { 4 }) { rng.range(1, 2) } else { 0 };
                 let cons: Vec<u32> = (0..n_cons).map(|_| *rng.pick(&all_vs)).collect();
                 Deps::Known { reqs, cons }
             };
@@ -101,11 +104,16 @@ pub fn generate(rng: &mut Rng, kind: Kind) -> Generated {
         if missing[n] { continue; }
         let mut p = Pkg { cands: by_name[n].clone(), ..Default::default() };
         if rng.chance(1, 5) { p.favored = Some(*rng.pick(&by_name[n])); }
+        if kind == Kind::ConflictFree && rng.chance(1, 8) {
+            // lock the best-ranked (or favored) candidate so that the preferred closure can stay consistent
+            let best = p.favored.unwrap_or_else(|| *by_name[n].iter().min_by_key(|s| u.solvs[s].rank).unwrap());
+            p.locked = Some(best);
+        }
         if kind != Kind::ConflictFree {
-            if rng.chance(1, 12) { p.locked = Some(*rng.pick(&by_name[n])); }
+            if rng.chance(1, if lazy { 4 } else { 12 }) { p.locked = Some(*rng.pick(&by_name[n])); }
             if rng.chance(1, 9) { for _ in 0..rng.range(1, 2) { let e = *rng.pick(&by_name[n]); if !p.excluded.iter().any(|x| x.0 == e) { p.excluded.push((e, rng.below(3) as u32)); } } }
         }
-        let hint_roll = if kind == Kind::Hints { rng.range(1, 2) } else { rng.below(5) };
+        let hint_roll = if lazy || (kind == Kind::ConflictFree && rng.chance(1, 2)) { 0 } else if kind == Kind::Hints { rng.range(1, 2) } else { rng.below(5) };
         p.hint = match hint_roll { 1 => Hint::All, 2 => Hint::Some(by_name[n].iter().copied().filter(|_| rng.chance(1, 2)).collect()), _ => Hint::None };
         u.pkgs.insert(n as u32, p);
     }
